@@ -1,3 +1,4 @@
+from .common import frame_unit, DISPLAY_FILES
 LEVEL = "other"
 EXPLANATION = "under construction"
 ASSUMPTIONS = ["A4: drawsvg / matplotlib calls are total", "bounded: the constructed family of circuits (add-histories of C02, all component kinds, nested and heralded groups, qubit gates)"]
@@ -6,5 +7,7 @@ NSHARDS = 14
 
 
 def units(tier):
-    return [dict(kind="func", mechanism="bounded runtime contract (C)", name=f"bounded:display[{k}/{NSHARDS}]", module="vf.tasks.t_display", func="unit", args=dict(shard=k, nshards=NSHARDS))
+    u = [dict(kind="func", mechanism="bounded runtime contract (C)", name=f"bounded:display[{k}/{NSHARDS}]", module="vf.tasks.t_display", func="unit", args=dict(shard=k, nshards=NSHARDS))
             for k in range(NSHARDS)]
+    u.append(frame_unit("display", DISPLAY_FILES))
+    return u
